@@ -63,7 +63,13 @@ class Sub:
 
     def __init__(self, name, oracle, strategy=None, enumerate=None,
                  machine=None, n=(200, 5000), shards=(1, 8),
-                 steps=(30, 50), budget=(150, 3000)):
+                 steps=(30, 50), budget=(150, 3000), bucket=None,
+                 rounds=(4, 8)):
+        # bucket: fn(message) -> root-cause key. When given, a search that
+        # found a failure is repeated with that bucket excluded (counted),
+        # so that one shallow defect does not hide the others.
+        self.bucket = bucket
+        self.rounds = rounds
         self.name = name
         self.oracle = oracle
         self.strategy = strategy
@@ -150,6 +156,7 @@ class Recorder:
         self.known_hits = Counter()
         self.t0 = time.time()
         self.tfail = None
+        self.excluded = set()       # root-cause buckets already reported
         self.budget_s = budget_s
         self.shrink_s = shrink_s
         self.status = "ok"
@@ -174,8 +181,9 @@ class Recorder:
             self.labels["skipped"] += 1
             return
         except Violation as v:
-            self._fail(case, str(v))
-            raise
+            if self._fail(case, str(v)):
+                raise
+            return
         except _Stop:
             raise
         except Exception as e:
@@ -243,6 +251,10 @@ class Recorder:
             if hit:
                 self.known_hits[what] += 1
                 return False
+        if self.sub.bucket is not None and \
+                self.sub.bucket(msg) in self.excluded:
+            self.labels["excluded:" + self.sub.bucket(msg)] += 1
+            return False
         if self.tfail is None:
             self.tfail = time.time()
         self.failures.append((len(canon(case)), case, msg))
@@ -257,15 +269,16 @@ class Recorder:
         return case, msg
 
     def smallest_failures(self, k=5):
-        seen, out = set(), []
+        """Up to k smallest distinct failing cases per root-cause bucket."""
+        seen, out, per = set(), [], Counter()
         for size, case, msg in sorted(self.failures, key=lambda f: f[0]):
             c = canon(case)
-            if c in seen:
+            b = self.sub.bucket(msg) if self.sub.bucket else ""
+            if c in seen or per[b] >= k:
                 continue
             seen.add(c)
+            per[b] += 1
             out.append((case, msg))
-            if len(out) >= k:
-                break
         return out
 
     def result(self, shard):
@@ -317,7 +330,24 @@ def run_task(args, casefd=None):
         elif sub.machine is not None:
             _run_machine(sub, rec, tier, seed, sub.n[ti], sub.steps[ti])
         else:
-            _run_hypothesis(sub, rec, tier, seed, sub.n[ti])
+            nrounds = sub.rounds[ti] if sub.bucket is not None else 1
+            for rnd in range(nrounds):
+                nfail = len(rec.failures)
+                try:
+                    _run_hypothesis(sub, rec, tier,
+                                    derive_seed(seed, "round", rnd)
+                                    if rnd else seed, sub.n[ti])
+                except Violation:
+                    pass
+                except _Stop:
+                    if rec.status == "inconclusive":
+                        raise
+                if len(rec.failures) == nfail:
+                    break
+                # exclude the buckets found so far and search again
+                for _, _, msg in rec.failures:
+                    rec.excluded.add(sub.bucket(msg))
+                rec.tfail = None
     except _Stop:
         pass
     except Violation:
@@ -638,8 +668,12 @@ def run_property(module, tier, base_seed, build_info, nproc=None,
     # one violation line per sub-check: the smallest failing case that
     # reproduces outside Hypothesis, in a fresh process
     cands = {}
+    subs_by_name = {s_.name: s_ for s_ in module.SUBS}
     for subname, case, msg in violations:
-        cands.setdefault(subname, []).append((len(canon(case)), case, msg))
+        sb = subs_by_name.get(subname)
+        b = sb.bucket(msg) if sb is not None and sb.bucket else ""
+        cands.setdefault((subname, b), []).append(
+            (len(canon(case)), case, msg))
 
     # listed known findings are announced on every run
     if KNOWN_FILE.exists():
@@ -649,7 +683,7 @@ def run_property(module, tier, base_seed, build_info, nproc=None,
                       f" (seen {known_lines.get(f['what'], 0)}x this run)")
 
     nviol = 0
-    for subname, lst in sorted(cands.items()):
+    for (subname, _bk), lst in sorted(cands.items()):
         lst.sort(key=lambda c: c[0])
         confirmed, case, msg = None, None, ""
         tried = set()
